@@ -2360,3 +2360,210 @@ Proof.
       cbn [map]. rewrite IH. apply build_view_spec in Hb. destruct Hb as (H1 & _). now rewrite H1. }
     now rewrite E.
 Qed.
+
+(* ========================================================================================== *)
+(* N. the line-by-line engine (current_rule / _add_rule appends) reads exactly what the grouped     *)
+(*    model reads, in either match mode                                                            *)
+
+Lemma bind_assoc {A B C} (r : res A) (f : A -> res B) (g : B -> res C) :
+  bind (bind r f) g = bind r (fun a => bind (f a) g).
+Proof. destruct r; reflexivity. Qed.
+
+Section EngineEq.
+  Variable pyparse : string -> bool.
+
+  Definition with_rules (e : engine) (rs : list rule) : engine :=
+    {| e_mode := e_mode e; e_rules := rs; e_vars := e_vars e; e_tr := e_tr e |}.
+
+  (* what the grouped reading says of the remaining tokens, given the machine's state *)
+  Definition grouped_from (st : pstate) (toks : list (nat * cline)) : res engine :=
+    let (pre, secs) := group toks in
+    let e := p_eng st in
+    match p_cur st with
+    | None =>
+        bind (foldM (pre_step pyparse) pre (e_vars e, e_tr e)) (fun vt =>
+          bind (mapM (build_rule pyparse) secs) (fun rs => Ok (with_rules (set_top e vt) (e_rules e ++ rs))))
+    | Some (n0, name, pr) =>
+        bind (foldM apply_prop pre pr) (fun pr' =>
+          bind (finish_rule pyparse n0 name pr') (fun r =>
+            bind (mapM (build_rule pyparse) secs) (fun rs => Ok (with_rules e (e_rules e ++ r :: rs)))))
+    end.
+
+  Lemma engine_eta e : with_rules (set_top e (e_vars e, e_tr e)) (e_rules e ++ []) = e.
+  Proof. destruct e; unfold with_rules, set_top; cbn. now rewrite app_nil_r. Qed.
+
+  Lemma run_engine_grouped toks : forall st, run_engine pyparse st toks = grouped_from st toks.
+  Proof.
+    induction toks as [|[n t] r IH]; intros [e cur].
+    - unfold run_engine, grouped_from, close_rule; cbn.
+      destruct cur as [[[n0 name] pr]|]; cbn.
+      + destruct (finish_rule pyparse n0 name pr); cbn; [|reflexivity].
+        unfold add_rule, with_rules; reflexivity.
+      + now rewrite engine_eta.
+    - unfold run_engine in *. cbn [foldM]. rewrite bind_assoc.
+      unfold grouped_from. cbn [group]. specialize (IH).
+      destruct t as [|hn|s]; unfold seq_step; cbn [snd fst p_cur p_eng].
+      + (* skip *) cbn [bind]. rewrite IH. unfold grouped_from. cbn [p_cur p_eng]. destruct (group r); reflexivity.
+      + (* header *)
+        unfold close_rule; cbn [p_cur p_eng]. destruct (group r) as [pre secs] eqn:G.
+        destruct cur as [[[n0 name] pr]|]; cbn [bind foldM mapM].
+        * destruct (finish_rule pyparse n0 name pr) as [r0|]; cbn [bind]; [|reflexivity].
+          set (M := mapM (build_rule pyparse) secs) in *.
+          unfold build_rule. destruct (is_empty hn); cbn [bind]; [reflexivity|].
+          rewrite IH. unfold grouped_from. rewrite G. cbn [p_cur p_eng add_rule e_rules e_mode e_vars e_tr].
+          destruct (foldM apply_prop pre prule0) as [pr'|]; cbn [bind]; [|reflexivity].
+          destruct (finish_rule pyparse n hn pr') as [r1|]; cbn [bind]; [|reflexivity].
+          fold M. destruct M as [rs|]; cbn [bind]; [|reflexivity].
+          unfold with_rules; cbn. now rewrite <- app_assoc.
+        * set (M := mapM (build_rule pyparse) secs) in *.
+          unfold build_rule. destruct (is_empty hn); cbn [bind]; [reflexivity|].
+          rewrite IH. unfold grouped_from. rewrite G. cbn [p_cur p_eng].
+          destruct (foldM apply_prop pre prule0) as [pr'|]; cbn [bind]; [|reflexivity].
+          destruct (finish_rule pyparse n hn pr') as [r1|]; cbn [bind]; [|reflexivity].
+          fold M. destruct M as [rs|]; cbn [bind]; [|reflexivity].
+          unfold with_rules, set_top; cbn. reflexivity.
+      + (* content *)
+        destruct (group r) as [pre secs] eqn:G.
+        destruct cur as [[[n0 name] pr]|]; cbn [bind foldM].
+        * destruct (apply_prop pr (n, s)) as [pr'|]; cbn [bind]; [|reflexivity].
+          rewrite IH. unfold grouped_from. rewrite G. reflexivity.
+        * destruct (pre_step pyparse (e_vars e, e_tr e) (n, s)) as [vt|]; cbn [bind]; [|reflexivity].
+          rewrite IH. unfold grouped_from. rewrite G. cbn [p_cur p_eng set_top e_vars e_tr e_rules fst snd].
+          destruct vt as [v tr]. cbn [fst snd].
+          destruct (foldM (pre_step pyparse) pre (v, tr)) as [vt2|]; cbn [bind]; [|reflexivity].
+          destruct (mapM (build_rule pyparse) secs); reflexivity.
+  Qed.
+
+  Definition res_map {A B} (f : A -> B) (r : res A) : res B :=
+    match r with Ok a => Ok (f a) | Err n k => Err n k end.
+
+  (* the engine loop reads what the grouped model reads, and keeps its mode *)
+  Lemma res_map_bind {A B C} (f : B -> C) (r : res A) (g : A -> res B) :
+    res_map f (bind r g) = bind r (fun a => res_map f (g a)).
+  Proof. destruct r; reflexivity. Qed.
+
+  Lemma bind_Ok_inv {A B} (r : res A) (g : A -> res B) b : bind r g = Ok b -> exists a, r = Ok a /\ g a = Ok b.
+  Proof. destruct r; cbn; [eauto|discriminate]. Qed.
+
+  Lemma parse_engine_eq mode ls :
+    res_map mfile_of (parse_engine pyparse mode ls) = parse_merchants pyparse ls /\
+    (forall e, parse_engine pyparse mode ls = Ok e -> e_mode e = mode).
+  Proof.
+    unfold parse_engine. rewrite run_engine_grouped. unfold grouped_from, parse_merchants, parse_m_numbered.
+    cbn [p_cur p_eng].
+    destruct (group _) as [pre secs]. split.
+    - rewrite res_map_bind. apply bind_ext. intros vt. rewrite res_map_bind. apply bind_ext. intros rs. reflexivity.
+    - intros e H. apply bind_Ok_inv in H as (vt & _ & H). apply bind_Ok_inv in H as (rs & _ & H).
+      inversion H. reflexivity.
+  Qed.
+
+  Lemma parse_engine_mode_independent m1 m2 ls :
+    res_map mfile_of (parse_engine pyparse m1 ls) = res_map mfile_of (parse_engine pyparse m2 ls).
+  Proof. now rewrite (proj1 (parse_engine_eq m1 ls)), (proj1 (parse_engine_eq m2 ls)). Qed.
+End EngineEq.
+
+(* ========================================================================================== *)
+(* O. the report memory: for EVERY history of loader calls in one process                        *)
+
+Section ReportMemoryProofs.
+  Variables (P E : Type) (peq : P -> P -> bool) (eeq : E -> E -> bool).
+  Hypothesis peq_spec : forall a b, peq a b = true <-> a = b.
+  Hypothesis eeq_spec : forall a b, eeq a b = true <-> a = b.
+
+  Notation call := (call P E).
+  Notation known := (known P E peq eeq).
+  Notation report_step := (report_step P E peq eeq).
+  Notation run_calls := (run_calls P E peq eeq).
+
+  Fixpoint mem_after (shown : list (P * E)) (cs : list call) : list (P * E) :=
+    match cs with [] => shown | c :: r => mem_after (fst (report_step shown c)) r end.
+
+  Lemma run_calls_app shown a b :
+    run_calls shown (a ++ b) = run_calls shown a ++ run_calls (mem_after shown a) b.
+  Proof.
+    revert shown. induction a as [|c a IH]; intros shown; [reflexivity|].
+    cbn [app run_calls mem_after]. destruct (report_step shown c) as [sh fl]. cbn [fst]. now rewrite IH.
+  Qed.
+
+  Lemma mem_after_app shown a b : mem_after shown (a ++ b) = mem_after (mem_after shown a) b.
+  Proof. revert shown. induction a as [|c a IH]; intros shown; [reflexivity|]. cbn [app mem_after]. apply IH. Qed.
+
+  Lemma run_calls_length shown cs : length (run_calls shown cs) = length cs.
+  Proof.
+    revert shown. induction cs as [|c r IH]; intros shown; [reflexivity|].
+    cbn [run_calls]. destruct (report_step shown c). cbn. now rewrite IH.
+  Qed.
+
+  (* the flag of the call that follows the prefix [pre] *)
+  Lemma flag_at shown pre c post :
+    nth_error (run_calls shown (pre ++ c :: post)) (length pre) = Some (snd (report_step (mem_after shown pre) c)).
+  Proof.
+    rewrite run_calls_app, nth_error_app2 by (rewrite run_calls_length; auto).
+    rewrite run_calls_length, Nat.sub_diag. cbn [run_calls]. destruct (report_step (mem_after shown pre) c). reflexivity.
+  Qed.
+
+  Lemma known_cons p e q e' sh : known p e ((q, e') :: sh) = ((peq p q && eeq e e') || known p e sh)%bool.
+  Proof. reflexivity. Qed.
+
+  (* G1: an error that has not occurred before in the process (and was not in the initial memory) reaches the user *)
+  Lemma new_error_is_reported shown pre p e post :
+    known p e shown = false -> (forall c, In c pre -> c <> Load p (Some e)) ->
+    nth_error (run_calls shown (pre ++ Load p (Some e) :: post)) (length pre) = Some true.
+  Proof.
+    intros Hk Hn. rewrite flag_at. f_equal.
+    assert (K : known p e (mem_after shown pre) = false).
+    { revert shown Hk. induction pre as [|c r IH]; intros shown Hk; [exact Hk|].
+      cbn [mem_after]. apply IH; [intros c' Hc; apply Hn; now right|].
+      destruct c as [q [e'|]|]; cbn [report_step fst]; [|exact Hk|reflexivity].
+      destruct (known q e' shown); [exact Hk|]. cbn [fst]. rewrite known_cons, Hk, orb_false_r.
+      destruct (peq p q) eqn:Ep; [|reflexivity]. destruct (eeq e e') eqn:Ee; [|reflexivity].
+      apply peq_spec in Ep. apply eeq_spec in Ee. subst. exfalso. apply (Hn (Load q (Some e'))); [now left|reflexivity]. }
+    cbn [report_step]. now rewrite K.
+  Qed.
+
+  (* G2: no error is ever lost: whenever a failing call stays silent, the very same (path, message) was shown
+     by an earlier call of this process and the memory was not cleared since *)
+  Lemma known_has_witness pre p e :
+    known p e (mem_after [] pre) = true ->
+    exists a b, pre = a ++ Load p (Some e) :: b /\ (forall c, In c b -> c <> ClearCache) /\
+                nth_error (run_calls [] pre) (length a) = Some true.
+  Proof.
+    induction pre as [|c pre' IH] using rev_ind; [discriminate|].
+    rewrite mem_after_app. cbn [mem_after]. set (M := mem_after [] pre') in *.
+    assert (Ext : forall a b, pre' = a ++ Load p (Some e) :: b -> (forall x, In x b -> x <> ClearCache) ->
+                   c <> ClearCache ->
+                   nth_error (run_calls [] pre') (length a) = Some true ->
+                   exists a0 b0, pre' ++ [c] = a0 ++ Load p (Some e) :: b0 /\ (forall x, In x b0 -> x <> ClearCache) /\
+                                 nth_error (run_calls [] (pre' ++ [c])) (length a0) = Some true).
+    { intros a b -> Hb Hc Hf. exists a, (b ++ [c]). split; [now rewrite <- app_assoc|]. split.
+      - intros x Hx. apply in_app_or in Hx as [Hx|[<-|[]]]; auto.
+      - rewrite run_calls_app, nth_error_app1; [exact Hf|].
+        rewrite run_calls_length, !app_length. cbn [length]. lia. }
+    destruct c as [q [e'|]|]; cbn [report_step fst].
+    - destruct (known q e' M) eqn:Kq; cbn [fst].
+      + intros K. destruct (IH K) as (a & b & E1 & Hb & Hf). eapply Ext; eauto. discriminate.
+      + rewrite known_cons. intros K. apply orb_true_iff in K as [K|K].
+        * apply andb_true_iff in K as [Ep Ee]. apply peq_spec in Ep. apply eeq_spec in Ee. subst q e'.
+          exists pre', []. split; [reflexivity|]. split; [intros x []|].
+          rewrite flag_at. cbn [report_step]. fold M. now rewrite Kq.
+        * destruct (IH K) as (a & b & E1 & Hb & Hf). eapply Ext; eauto. discriminate.
+    - intros K. destruct (IH K) as (a & b & E1 & Hb & Hf). eapply Ext; eauto. discriminate.
+    - discriminate.
+  Qed.
+
+  Lemma silent_error_was_shown pre p e post :
+    nth_error (run_calls [] (pre ++ Load p (Some e) :: post)) (length pre) = Some false ->
+    exists a b, pre = a ++ Load p (Some e) :: b /\ (forall c, In c b -> c <> ClearCache) /\
+                nth_error (run_calls [] (pre ++ Load p (Some e) :: post)) (length a) = Some true.
+  Proof.
+    rewrite flag_at. cbn [report_step]. destruct (known p e (mem_after [] pre)) eqn:K; [|discriminate]. intros _.
+    destruct (known_has_witness pre p e K) as (a & b & E1 & Hb & Hf). exists a, b. repeat split; auto.
+    rewrite run_calls_app, nth_error_app1; [exact Hf|].
+    rewrite run_calls_length, E1, !app_length. cbn [length]. lia.
+  Qed.
+
+  (* G3: a file that loads prints nothing *)
+  Lemma loaded_is_quiet shown pre p post :
+    nth_error (run_calls shown (pre ++ Load p None :: post)) (length pre) = Some false.
+  Proof. rewrite flag_at. reflexivity. Qed.
+End ReportMemoryProofs.
